@@ -481,4 +481,36 @@ theorem encode_convertSplit (t : TypeId) (v : J) (e : Exp) (h : convertSplit t v
 
 theorem isSplitKey_splitKey : isSplitKey splitKey = true := by decide
 
+
+/-! ### value semantics: the printers change the syntax class of a number, never its value -/
+
+theorem Flt.val_of_integral (f : Flt) (h : f.m = 0 ∨ 0 ≤ f.e) : f.val = (f.intVal, 0) := by
+  unfold Flt.val
+  by_cases hm : f.m = 0
+  · simp only [hm, ↓reduceIte, Flt.intVal, Nat.zero_mul]
+    cases f.neg <;> simp
+  · rcases h with h | h
+    · exact absurd h hm
+    · simp [hm, h]
+
+theorem val_encLit (l : Lit) : (encLit l).val = l.val := by
+  cases l with
+  | flt f =>
+    by_cases h : f.jsonAsInt = true
+    · simp only [encLit, h, ↓reduceIte, Lit.val]
+      simp only [Flt.jsonAsInt, Bool.or_eq_true, beq_iff_eq, Bool.and_eq_true, decide_eq_true_eq] at h
+      rw [Flt.val_of_integral f (h.imp id (fun hh => hh.1))]
+    · simp [encLit, h]
+  | _ => rfl
+
+theorem val_textLit (l : Lit) : (textLit l).val = l.val := by
+  cases l with
+  | flt f =>
+    by_cases h : f.textAsInt = true
+    · simp only [textLit, h, ↓reduceIte, Lit.val]
+      simp only [Flt.textAsInt, Bool.or_eq_true, beq_iff_eq, Bool.and_eq_true, decide_eq_true_eq] at h
+      rw [Flt.val_of_integral f (h.imp id (fun hh => hh.1))]
+    · simp [textLit, h]
+  | _ => rfl
+
 end Martian.Invocation
